@@ -99,6 +99,16 @@ func (r *runner) dump() any {
 
 // do executes one op on the real manager and returns (result, dump)
 func (r *runner) do(o hx.T) (obs any, alloc *liveScene) {
+	defer func() {
+		if p := recover(); p != nil {
+			if s, ok := p.(string); ok && strings.HasPrefix(s, "c19:") {
+				panic(p) // the harness's own assertions
+			}
+			// a panic of the manager is an observation no model result matches
+			bad := hx.C("RReq", hx.C("Some", pair(pair(pair(int64(-1), int64(-1)), int64(-1)), int64(-1))))
+			obs, alloc = pair(bad, r.dump()), nil
+		}
+	}()
 	var res any = "RUnit"
 	switch o.Name {
 	case "OCreate":
@@ -578,6 +588,40 @@ func Run(cfg *hx.Config) error {
 			obs, nt := Exec(ops)
 			emit(hx.Case{Kind: fmt.Sprintf("holes-%d", k), Ops: ops, Obs: obs, Nontrivial: nt, Tags: []string{"holes"}})
 		})
+	}
+	// requests interleaved with the end of a line: n lines of one configuration, k requests, then the
+	// scene on line j ends (directly, or because its service is lost), then requests again - a request
+	// must keep answering with a live scene of that configuration whatever was asked before
+	maxn := 4
+	if cfg.Tier == "thorough" {
+		maxn = 6
+	}
+	for n := 2; n <= maxn; n++ {
+		for k := 0; k < 2*n; k++ {
+			for _, j := range []int{n - 1, 0, n / 2} {
+				for _, lost := range []bool{false, true} {
+					ops := []hx.T{hx.C("ORefresh", int64(1), int64(0)), hx.C("ORefresh", int64(2), int64(0))}
+					for l := 0; l < n; l++ {
+						svc := int64(1)
+						if l == j {
+							svc = 2
+						}
+						ops = append(ops, hx.C("OCreate", int64(100), int64(l+1), svc))
+					}
+					for q := 0; q < k; q++ {
+						ops = append(ops, hx.C("OReq", int64(100)))
+					}
+					if lost {
+						ops = append(ops, hx.C("OLost", int64(2)))
+					} else {
+						ops = append(ops, hx.C("OEnd", int64(j+1)))
+					}
+					ops = append(ops, hx.C("OReq", int64(100)), hx.C("OReq", int64(100)), hx.C("OCreate", int64(100), int64(n+1), int64(1)), hx.C("OReq", int64(100)))
+					obs, nt := Exec(ops)
+					emit(hx.Case{Kind: "req-after-end", Ops: ops, Obs: obs, Nontrivial: nt, Tags: []string{"req-after-end"}})
+				}
+			}
+		}
 	}
 	// busy-weight grid: two or three working services with scene counts around every kink of
 	// GetBusyWeight (1000 scenes = "ratio 1", 5000 = the cap), then an allocation: it must land on
